@@ -643,6 +643,29 @@ Proof.
       * intros a Ha. eapply closed_anc; [exact R1|exact Ha|]. apply R2. apply HR. eapply rget_values. eassumption.
 Qed.
 
+(** a push that would have to send a commit whose table is not stored locally sends nothing: it is refused and
+    the remote is untouched (the guard NewShallowCommitError in NewReceivePackSession) *)
+Theorem push_refuses_shallow g local remote items gforce p :
+  push_shallow_refused g local remote items gforce = true ->
+  push g local remote items gforce p = (1, remote).
+Proof.
+  unfold push_shallow_refused, push. cbv zeta.
+  destruct (identify_updates _ _ _ _ _) as [[us nrej]|]; [|discriminate].
+  destruct us as [|u0 us']; [discriminate|].
+  destruct (negb (forallb _ _)); [discriminate|].
+  intros H. rewrite H. reflexivity.
+Qed.
+
+Theorem push_k_closed known g local remote items gforce p f :
+  Closed g (o_commits (r_objs remote)) -> RefsResolve remote ->
+  push_post g remote (snd (push_k known g local remote items gforce p f)).
+Proof.
+  intros HC HR. unfold push_k.
+  destruct (negb known && push_shallow_refused g local remote items gforce).
+  - simpl. apply push_post_same; assumption.
+  - apply push_f_closed; assumption.
+Qed.
+
 (** fetch under ANY transport fault: the local store stays Closed, nothing is lost, and every ref that was
     created or moved points at a stored commit all of whose ancestors are stored.  In particular a session
     that does not reach "done" writes no ref (mode 1), and a retried one (mode 2) is an ordinary fetch from
@@ -673,6 +696,14 @@ Proof.
   intros HC. pose proof (fetch_post_fetch g local remote specs gforce depth k p tn HC) as N.
   unfold fetch_f. cbv zeta.
   destruct (f_mode f =? 0); [exact N|].
+  destruct ((f_mode f =? 3) || (f_mode f =? 4)).
+  { destruct (session_view _ _ _ _ _ _ _ _) as [[[wants has_json] packs]|]; [|exact N].
+    destruct (f_mode f =? 4); [simpl; apply fetch_post_same; exact HC|].
+    destruct packs as [|p1 packs]; [exact N|].
+    destruct (receive g (r_objs local) wants (removelast p1)) as [[o' e']|] eqn:ER;
+      [|simpl; apply fetch_post_same; exact HC].
+    apply receive_inv in ER; [|exact HC]. destruct ER as (R1 & R2 & R3 & _).
+    unfold fetch_post. simpl. repeat split; auto; contradiction. }
   destruct (f_phase f =? 1); [simpl; apply fetch_post_same; exact HC|].
   destruct (session_view _ _ _ _ _ _ _ _) as [[[wants has_json] packs]|]; [|exact N].
   match goal with |- context [match ?h with Some _ => _ | None => _ end] =>
